@@ -37,6 +37,7 @@ const (
 	kStarLitRef // ( 'a' R )*
 	kChoicePredRef  // ( !'x' / R )        a nullable alternative that can fail, then the reference
 	kChoicePredNRef // ( !'x' / N R 'y' )  the same with a nullable rule in front of the reference
+	kRecThrowRef    // ( T 'z' ) //{l} R   T <- 'b' / %{l}: R runs where the throw happens, possibly at the start of the rule
 	kNumRefKinds
 )
 
@@ -145,6 +146,12 @@ func c07Make(d c07Desc) ast.Expression {
 		e := ast.NewZeroOrMoreExpr(p)
 		e.Expr = c07Seq(lit("a"), r)
 		return e
+	case kRecThrowRef:
+		e := ast.NewRecoveryExpr(p)
+		e.Expr = c07Seq(c07Ref("T"), lit("z"))
+		e.RecoverExpr = r
+		e.Labels = []ast.FailureLabel{"l"}
+		return e
 	case kChoicePredRef, kChoicePredNRef:
 		n := ast.NewNotExpr(p)
 		n.Expr = lit("x")
@@ -204,12 +211,14 @@ func reflrSlotNullable(d c07Desc, ruleNull []bool) bool {
 		return ruleNull[d.ref]
 	case kPlusNRef:
 		return ruleNull[d.ref] // N is nullable
+	case kRecThrowRef:
+		return false // the guarded sequence ends with 'z'
 	}
 	panic("reflr: kind")
 }
 
 // reflr returns whether the grammar has a cycle in its first-call graph.
-func reflr(rules []*c07Rule) (cyclic bool, illFormed bool) {
+func reflr(rules []*c07Rule) (cyclic bool, illFormed bool, approx bool) {
 	n := len(rules)
 	null := make([]bool, n)
 	for changed := true; changed; {
@@ -245,6 +254,12 @@ func reflr(rules []*c07Rule) (cyclic bool, illFormed bool) {
 				if (s.d.kind == kStar || s.d.kind == kPlus || s.d.kind == kPlusNRef) && null[s.d.ref] {
 					illFormed = true
 				}
+			}
+			if s.d.kind == kRecThrowRef && null[s.d.ref] {
+				// pigeon documents no nullability rule for a recovery operator; it treats
+				// E //{l} R as nullable when R is. Whether what follows can start the rule
+				// is then a matter of definition: only "a cycle is never accepted" is asserted.
+				approx = true
 			}
 			if !reflrSlotNullable(s.d, null) {
 				break
@@ -318,22 +333,31 @@ func Harness_C07a(n int) {
 	nr.Expr = no
 	g.Rules = append(g.Rules, nr)
 
+	// the fixed throwing rule T <- 'b' / %{l}
+	tr := ast.NewRule(ast.Pos{}, ast.NewIdentifier(ast.Pos{}, "T"))
+	tc := ast.NewChoiceExpr(ast.Pos{})
+	th := ast.NewThrowExpr(ast.Pos{})
+	th.Label = "l"
+	tc.Alternatives = []ast.Expression{ast.NewLitMatcher(ast.Pos{}, "b"), th}
+	tr.Expr = tc
+	g.Rules = append(g.Rules, tr)
+
 	have, err := PrepareGrammar(g)
-	want, ill := reflr(rules)
+	want, ill, approx := reflr(rules)
 	symAssume(!ill)
 	symNote(c07Describe(rules))
 	if err != nil {
 		// no leader candidate: the tool rejects the grammar also with the flag; it
 		// must then really be left-recursive
 		symAssert(errors.Is(err, ErrNoLeader), "C07: unexpected error from PrepareGrammar")
-		symAssert(want, "C07: left-recursion error for a grammar without a first-call cycle")
+		symAssert(want || approx, "C07: left-recursion error for a grammar without a first-call cycle")
 		symReach("end")
 		return
 	}
 	symDebug("grammar", c07Describe(rules), have, want)
 	if want {
 		symAssert(have, "C07: left recursion not detected (grammar would be accepted without -support-left-recursion)")
-	} else {
+	} else if !approx {
 		symAssert(!have, "C07: grammar without a first-call cycle reported as left-recursive")
 	}
 	symReach("end")
